@@ -90,6 +90,7 @@ from apischema.utils import (
     CollectionOrPredicate,
     Lazy,
     as_predicate,
+    get_args2,
     get_origin_or_type,
     get_origin_or_type2,
     identity,
@@ -131,6 +132,8 @@ def expected_class(tp: AnyType) -> type:
         return expected_class(origin.__supertype__)
     elif is_type_var(origin) or origin is Any:
         return object
+    elif is_union(origin):  # e.g. Annotated union nested in a union
+        return tuple(map(expected_class, get_args2(tp)))  # type: ignore
     elif is_literal(tp):
         # isinstance accepts a tuple of classes
         return tuple({v.__class__ for v in literal_values(get_args(tp))})  # type: ignore
